@@ -15,14 +15,23 @@ Proof.
   intros g a b Hz Hm. unfold emit_div, i64_div_s. rewrite Hz. cbn [andb].
   destruct (b =? 0) eqn:B0; [discriminate|].
   destruct Hm as [Hm|Hm].
-  - rewrite Hm. cbn [andb]. destruct ((a =? i64_min) && (b =? -1)) eqn:E; [discriminate|].
-    cbn. discriminate.
+  - rewrite Hm. cbn [andb]. destruct (b =? -1) eqn:B; [discriminate|].
+    rewrite andb_false_r. discriminate.
   - assert (E : ((a =? i64_min) && (b =? -1)) = false).
     { destruct (a =? i64_min) eqn:A; [|reflexivity]. destruct (b =? -1) eqn:B; [|reflexivity].
       apply Z.eqb_eq in A. apply Z.eqb_eq in B. exfalso. apply Hm. split; assumption. }
-    replace (g_div_min_neg1 g && (a =? i64_min) && (b =? -1)) with false
-      by (rewrite <- andb_assoc, E, andb_false_r; reflexivity).
+    destruct (g_div_min_neg1 g && (b =? -1)); [discriminate|].
     rewrite E. discriminate.
+Qed.
+
+(* with both guards the division never traps and agrees with wrapping division *)
+Lemma emit_div_guarded_value : forall g a b,
+  g_div_zero g = true -> g_div_min_neg1 g = true -> b <> 0 ->
+  emit_div g a b = WVal (if b =? -1 then wrap64 (- a) else Z.quot a b).
+Proof.
+  intros g a b Hz Hm Hb. unfold emit_div, i64_div_s. rewrite Hz, Hm. cbn [andb].
+  assert (B0 : (b =? 0) = false) by (apply Z.eqb_neq; exact Hb). rewrite B0.
+  destruct (b =? -1) eqn:B; [reflexivity|]. rewrite andb_false_r. reflexivity.
 Qed.
 
 (* the condition is also necessary: with the zero guard only, MIN / -1 traps *)
@@ -105,16 +114,22 @@ Qed.
 (* the generated guards of the current source: zero divisors are guarded *)
 Definition zero_guards_present : bool := g_div_zero div_guards && g_rem_zero div_guards && g_shift_lt64 div_guards.
 
-(* ------------------------------------------------------------------ refutations (DESIGN finding 7) *)
+(* ------------------------------------------------------------------ refutations (DESIGN finding 7, repaired since) *)
 (* (-9223372036854775807-1) \ (filesize - 4) on a 3-byte file *)
 Definition div_witness : aexp := ADiv (AConst i64_min) (ASub (AVar 0) (AConst 4)).
 Definition div_witness_env : nat -> option Z := fun _ => Some 3.
+(* emit.rs before the repair: zero divisors guarded, -1 not *)
+Definition guards_before_fix : guards := mkGuards true false true true.
 
-(* robust against a later repair: either emit.rs has gained a MIN / -1 guard, or the witness traps *)
+(* stays true whatever the source does: either emit.rs handles the divisor -1, or the witness traps *)
 Definition div_refuted_b : bool := g_div_min_neg1 div_guards || is_trap (aeval div_guards div_witness_env div_witness).
 
 (* for (filesize * 1000)% i in (0..0x3fffffffffffffff) on a 3-byte file: n = 2^62, q = 3000 *)
 Definition pct_refuted_b : bool := negb pct_trunc_trapping || is_trap (pct_max_count 4611686018427387904 3000).
+
+(* the conversion emit_for uses never traps once it is the saturating one *)
+Lemma emit_pct_sat_no_trap : forall n q, emit_pct false n q <> WTrap.
+Proof. intros. unfold emit_pct. discriminate. Qed.
 
 Lemma is_trap_true : forall r, is_trap r = true -> r = WTrap.
 Proof. destruct r; cbn; intros; try discriminate; reflexivity. Qed.
